@@ -371,29 +371,38 @@ func (sc *sched) yieldPoint(what string) {
 	}
 }
 
-// quiesce blocks the caller until every other goroutine is blocked or done.
+// quiesce blocks the caller until every other goroutine is blocked or done
+// and (explore mode) no timer is due. In explore mode the order in which the
+// others run and due timers fire is a scheduling choice.
 func (sc *sched) quiesce() {
 	g := sc.cur
 	for {
 		sc.checkAbort()
-		var other *gor
+		var others []*gor
 		for _, r := range sc.runnable() {
 			if r != g {
-				other = r
-				break
+				others = append(others, r)
 			}
 		}
-		if other == nil {
-			if sc.explore {
-				if due := sc.dueTimers(); len(due) > 0 {
-					sc.fire(due[0])
-					continue
-				}
-			}
+		var due []*vtimer
+		if sc.explore {
+			due = sc.dueTimers()
+		}
+		n := len(others) + len(due)
+		if n == 0 {
 			return
 		}
-		g.state = gRunnable
-		sc.transfer(g, other, false)
+		k := 0
+		if sc.explore {
+			k = sc.ex.choose(n, "quiesce")
+		}
+		if k < len(others) {
+			sc.note("run " + others[k].name)
+			g.state = gRunnable
+			sc.transfer(g, others[k], false)
+			continue
+		}
+		sc.fire(due[k-len(others)])
 	}
 }
 
